@@ -106,10 +106,18 @@ extern "C" void h_pattern_alloc()
 #ifndef VF_ND
 #define VF_ND 10
 #endif
-    bool second = vf_nondet_bool();
+#ifndef VF_SECOND
+#define VF_SECOND 0
+#endif
+    const bool second = VF_SECOND;      // (a symbolic choice between two literals would make the pattern text symbolic)
     QString pat = second ? QStringLiteral("%{a?,") : QStringLiteral("%{message:>");
-    const int nd = VF_ND; const int d0 = 9;      // concrete digits: a symbolic character inside the pattern would fork the tokenizer at every decision
-    for (int i = 0; i < 10; ++i) if (i < nd) pat.append(QChar(ushort(i == 0 ? '0' + d0 : '9')));
+    // concrete digits (a symbolic character inside the pattern would fork the tokenizer at every decision): VF_ND digits,
+    // the first one VF_D0, the rest '0'  -- e.g. 2000000000
+#ifndef VF_D0
+#define VF_D0 9
+#endif
+    const int nd = VF_ND;
+    for (int i = 0; i < 10; ++i) if (i < nd) pat.append(QChar(ushort(i == 0 ? '0' + VF_D0 : '0')));
     pat.append(second ? QStringLiteral("}x") : QStringLiteral("}"));
     QMessageLogContext ctx("f", 1, "fn", "c");
     LogMessage msg(QtDebugMsg, ctx, QStringLiteral("m"));
